@@ -16,4 +16,7 @@ func run(r *core.Run) {
 	runDer(r)
 	runV2Store(r)
 	runV1Store(r)
+	runV1Access(r)
+	runPerms(r)
+	runSymlinks(r)
 }
